@@ -662,6 +662,8 @@ def d_get(I, a, k):
         return val
     if z3.is_false(hs):
         return default
+    if isinstance(default, (SList, SSet, SDict, SObj)) and not I.pure:
+        return val if I.st.branch(has) else default
     return I.ops.ite(has, val, default)
 
 
@@ -782,6 +784,11 @@ def s_encode(I, a, k):
 
 def s_decode(I, a, k):
     return a[0]
+
+
+def i_total_seconds(I, a, k):
+    # timedelta values are modelled as integer milliseconds
+    return SFloat(z3.ToReal(I.ops.as_int(a[0])) / 1000)
 
 
 def i_bit_length(I, a, k):
@@ -1008,7 +1015,35 @@ def v_get(I, a, k):
     if not I.pure and I.st.branch(z3.Not(vhashable(kv))):
         I.raise_builtin("TypeError", "unhashable type")
     has = z3.And(VAL.is_VStr(kv), vdict_has(VAL.vd(t), VAL.vs(kv)))
-    return I.ops.ite(has, SVal(vdict_get(VAL.vd(t), VAL.vs(kv))), default)
+    got = SVal(vdict_get(VAL.vd(t), VAL.vs(kv)))
+    if isinstance(default, (SList, SSet, SDict, SObj)) and not I.pure:
+        return got if I.st.branch(has) else default
+    return I.ops.ite(has, got, default)
+
+
+vlist_tail = z3.Function("vlist_tail", z3.IntSort(), z3.IntSort())
+
+
+def v_pop(I, a, k):
+    """list.pop(0) on a dynamic list value: returns the head; the wrapper now denotes the tail (same Python object)."""
+    v = a[0]
+    if len(a) != 2 or not (isinstance(a[1], SInt) and z3.is_int_value(z3.simplify(a[1].t)) and z3.simplify(a[1].t).as_long() == 0):
+        raise Unsupported("pop on a dynamic value other than pop(0)")
+    t = v.t
+    if I.st.branch(z3.Not(VAL.is_VList(t))):
+        I.raise_builtin("AttributeError", "pop")
+    l = VAL.vl(t)
+    n = vlist_len(l)
+    I.st.assume(n >= 0)
+    if I.st.branch(n <= 0):
+        I.raise_builtin("IndexError", "pop from empty list")
+    head = vlist_get(l, z3.IntVal(0))
+    tl = vlist_tail(l)
+    j = z3.Int(fresh_name("j"))
+    I.st.assume(vlist_len(tl) == n - 1)
+    I.st.assume(z3.ForAll([j], z3.Implies(z3.And(j >= 0, j < n - 1), vlist_get(tl, j) == vlist_get(l, j + 1))))
+    v.t = VAL.VList(tl)
+    return SVal(head)
 
 
 def v_items(I, a, k):
